@@ -1549,6 +1549,23 @@ var c11Mutants = []Mutant{
 		Old:    "\t\ttarget, err := filepath.Abs(path)",
 		New:    "\t\ttarget, err := filepath.Abs(s.workingDir)",
 		Expect: "C11.R2.sanitisers-reject|(*~/content/file.Store).resolveWritePath|validates-what-it-returns"},
+	// R2, plain-return idiom: the tests are all still there but an early successful return bypasses them
+	{Name: "writepath-absolute-names-bypass-check", File: "content/file/file.go",
+		Old:    "\tif !s.AllowPathTraversalOnWrite {\n\t\tbase, err := filepath.Abs(s.workingDir)",
+		New:    "\tif !s.AllowPathTraversalOnWrite && !filepath.IsAbs(name) {\n\t\tbase, err := filepath.Abs(s.workingDir)",
+		Expect: "C11.R2.sanitisers-reject|(*~/content/file.Store).resolveWritePath|rel-on-every-success-path"},
+	{Name: "entry-early-success-before-dotdot-tests", File: "content/file/utils.go",
+		Old:    "\tcleanPath := filepath.ToSlash(filepath.Clean(path))\n",
+		New:    "\tif !strings.Contains(path, \"/\") {\n\t\treturn path, nil\n\t}\n\tcleanPath := filepath.ToSlash(filepath.Clean(path))\n",
+		Expect: "C11.R2.sanitisers-reject|~/content/file.resolveRelToBase|dotdot-rejected"},
+	{Name: "entry-early-success-before-ancestor-walk", File: "content/file/utils.go",
+		Old:    "\t// No symbolic link allowed in the relative path\n",
+		New:    "\tif baseRel == \"\" {\n\t\treturn path, nil\n\t}\n",
+		Expect: "C11.R2.sanitisers-reject|~/content/file.resolveRelToBase|ancestor-walk-not-bypassed"},
+	{Name: "link-early-success-for-absolute-target", File: "content/file/utils.go",
+		Old:    "\t// ensure path is under baseAbs or baseRel\n",
+		New:    "\tif filepath.IsAbs(target) && strings.HasPrefix(target, baseAbs) {\n\t\treturn target, nil\n\t}\n",
+		Expect: "C11.R2.sanitisers-reject|~/content/file.ensureLinkPath|success-implies-validated"},
 	// R3: a different unguarded sink must produce a different key
 	{Name: "new-chmod-after-create", File: "content/file/file.go",
 		Old:    "\tfp, err := os.Create(target)\n\tif err != nil {\n\t\treturn fmt.Errorf(\"failed to create file %s: %w\", target, err)\n\t}\n",
